@@ -98,7 +98,7 @@ def public_entry_points(ctx):
         return
     root = os.path.join(vlib.SCRATCH, "c05", "u")
     total = orders = 0
-    for env in (None, "$ROOT/abs/out", "rel/out/../out"):
+    for env in (None, "$ROOT/abs/out", "rel/out/../out", "$ROOT/abs/x/../out"):
         types, dod = uni.describe(binary, root, env)
         if env is None:
             # the REAL generated texts (export_to_string of every exportable type of the universe) lie in the theorems' domain
